@@ -290,6 +290,40 @@ type world struct {
 }
 
 var worldAux2 []byte // code of the third contract for the next world (nil = none)
+var worldNonce uint64 // nonce of the creating account (target, and origin for top-level creates) in the next world
+
+// retention (hardening class 3): results handed out by earlier runs are kept and re-checked after later runs
+type retained struct {
+	live []byte // the slice evm.Call returned
+	copy []byte // its content at that time
+	op   string
+}
+
+var retainedRets []retained
+var retentionViol []string
+
+func retain(ret []byte, op string) {
+	if len(ret) == 0 {
+		return
+	}
+	c := make([]byte, len(ret))
+	copy(c, ret)
+	retainedRets = append(retainedRets, retained{ret, c, op})
+	if len(retainedRets) > 64 {
+		retainedRets = retainedRets[1:]
+	}
+}
+
+func checkRetained() {
+	for _, r := range retainedRets {
+		if string(r.live) != string(r.copy) {
+			if len(retentionViol) < 4 {
+				retentionViol = append(retentionViol, r.op)
+			}
+			copy(r.copy, r.live)
+		}
+	}
+}
 
 func newWorld(code, aux []byte) *world {
 	mem, _ := db.NewMemDatabase()
@@ -311,6 +345,10 @@ func newWorld(code, aux []byte) *world {
 		adb.AddBalance(aux2Addr, big.NewInt(5000))
 	}
 	adb.CreateAccount(emptyAcc)
+	if worldNonce != 0 {
+		adb.SetNonce(target, worldNonce)
+		adb.SetNonce(origin, worldNonce)
+	}
 	return &world{adb: adb, rec: &recorder{inner: adb}}
 }
 
@@ -418,6 +456,8 @@ func runCall(cfg int, gas uint64, value *big.Int, to common.Address, code, input
 	var res string
 	run := func() string {
 		ret, left, _, err := e.Call(vm.AccountRef(origin), to, input, gas, value)
+		checkRetained()
+		retain(ret, head)
 		res = fmt.Sprintf("%s %d %s %d s=%d h=%d d=%d", statusOf(err, isPre), left, hexTok(ret), len(w.rec.tape), obs.steps, obs.maxStack, obs.maxDepth)
 		return res
 	}
@@ -433,7 +473,47 @@ func runCreate(cfg int, gas uint64, value *big.Int, init []byte, aux []byte) (st
 	head := fmt.Sprintf("create %d %d %s %s %s ", cfg, gas, hexTok(value.Bytes()), hexTok(init), ctxToken(gas))
 	run := func() string {
 		ret, addr, left, _, err := e.Create(vm.AccountRef(origin), init, gas, value)
+		checkRetained()
+		retain(ret, head)
 		return fmt.Sprintf("%s %d %s %s %d s=%d h=%d d=%d", statusOf(err, false), left, hexTok(ret), ha(addr), len(w.rec.tape), obs.steps, obs.maxStack, obs.maxDepth)
 	}
 	return head, run
+}
+
+// runPlain executes a spec on its own world without touching the harness globals (tape of the
+// precompiles, step observer): what concurrent goroutines run. The fork flags are process-wide
+// and must have been set by the caller.
+func runPlain(s spec) string {
+	mem, _ := db.NewMemDatabase()
+	adb, err := account.NewAccountDB(common.Hash{}, account.NewDatabase(mem))
+	if err != nil {
+		return "world-error"
+	}
+	adb.AddBalance(origin, new(big.Int).Exp(big.NewInt(10), big.NewInt(20), nil))
+	if s.code != nil && s.kind == "C" {
+		adb.SetCode(target, s.code)
+		adb.AddBalance(target, big.NewInt(1000000))
+	}
+	if s.aux != nil {
+		adb.SetCode(auxAddr, s.aux)
+		adb.AddBalance(auxAddr, big.NewInt(5000))
+	}
+	if s.aux2 != nil {
+		adb.SetCode(aux2Addr, s.aux2)
+		adb.AddBalance(aux2Addr, big.NewInt(5000))
+	}
+	adb.CreateAccount(emptyAcc)
+	ctx := vm.Context{CanTransfer: vm.CanTransfer, Transfer: vm.Transfer,
+		GetHash:  func(n uint64) common.Hash { return common.BytesToHash([]byte{0xbb, byte(n >> 8), byte(n)}) },
+		Origin:   origin, GasPrice: gasPrice, Coinbase: coinbase, GasLimit: s.gas, BlockNumber: big.NewInt(blockNumber), Time: timeNow, Difficulty: diff}
+	e := vm.NewEVMWithNFT(ctx, adb, adb)
+	return hxGuard(func() string {
+		if s.kind == "K" {
+			ret, addr, left, _, err := e.Create(vm.AccountRef(origin), s.code, s.gas, s.value)
+			return fmt.Sprintf("%s %d %s %s", statusOf(err, false), left, hexTok(ret), ha(addr))
+		}
+		_, isPre := vm.PrecompiledContracts[s.to]
+		ret, left, _, err := e.Call(vm.AccountRef(origin), s.to, s.input, s.gas, s.value)
+		return fmt.Sprintf("%s %d %s", statusOf(err, isPre), left, hexTok(ret))
+	})
 }
